@@ -11,3 +11,6 @@ import GoRedisModel.Properties.C11
 import GoRedisModel.Properties.C20
 import GoRedisModel.Properties.C08
 import GoRedisModel.Properties.C13
+import GoRedisModel.Properties.C12
+import GoRedisModel.Properties.C17
+import GoRedisModel.Properties.C18
